@@ -117,14 +117,19 @@ def static_locks(tier, seed, build, repo, verif):
 CONFIG = {
     "id": "C14",
     "coq_dirs": ["theories/Locks"],
-    "coq_targets": ["theories/Locks/Properties.vo", "theories/Locks/Corr.vo"],
+    "coq_targets": ["theories/Locks/Properties.vo", "theories/Locks/Corr.vo", "theories/Dir/Corr.vo"],
     "properties_files": ["theories/Locks/Properties.v"],
     "required_theorems": ["balanced_sound", "balanced_sound_all", "pile_holds_exactly", "pile_blocks_bare", "no_deadlock"],
     "static_obligations": [static_locks],
     "harnesses": [
         {"cmd": "locks", "cases_quick": 240, "cases_thorough": 1200, "shards_quick": 8, "shards_thorough": 16,
          "race": True, "timeout": 1400},
+        # dynamic part on the directory harness of C13: after every call (including every error
+        # return) the lock of every touched directory must be free; kinds "C14:lock-leak:<method>"
+        {"cmd": "dir", "cases_quick": 320, "cases_thorough": 8000, "shards_quick": 8, "shards_thorough": 32, "race": True,
+         "shared": True, "coq_dirs": ["theories/Dir"]},
     ],
+    "violation_kinds": ["lock-leak", "hang", "pile-", "C14:"],
     "trusted_base": [
         "translator /verif/translator (Go, go/ast): emits the lock skeleton faithfully; fails on constructs touching locks it does not understand; "
         "assumes calls it cannot resolve inside the package (other packages, interfaces, function values) are lock-neutral for the caller, which the "
